@@ -2,12 +2,17 @@
 package main
 
 import (
+	"bufio"
 	"bytes"
 	"fmt"
 	"io"
+	"net/url"
 	"strings"
 
 	"github.com/gobwas/ws"
+	"github.com/gobwas/ws/wsflate"
+
+	"verifmc/hs"
 
 	"verifmc/drivers"
 	"verifmc/env"
@@ -217,6 +222,88 @@ func main() {
 			}
 		})
 
+		r.Part("E2-handshake-every-cut", func(t *explore.T) {
+			reqs := map[string][]byte{}
+			for _, q := range []hs.Req{
+				make(hs.Req, len(hs.ReqFields)),
+				withField(hs.ReqFields, "protocol", "a, b"),
+				withField(hs.ReqFields, "extensions", "pmd"),
+				withField(hs.ReqFields, "lineend", "LF"),
+				withField(hs.ReqFields, "extra", "between"),
+			} {
+				reqs[q.String()] = q.Build()
+			}
+			for name, data := range reqs {
+				for cut := 0; cut < len(data); cut++ {
+					for _, kind := range []string{"EOF", "error", "error-with-last-bytes"} {
+						for _, bufSize := range []int{0, 16} {
+							name, data, cut, kind, bufSize := name, data, cut, kind, bufSize
+							t.Do(func() string { return fmt.Sprintf("Upgrader request{%s} cut=%d/%d end=%s readbuf=%d", name, cut, len(data), kind, bufSize) }, func() *explore.Fail {
+								src := env.NewSrc(data)
+								src.Cut = cut
+								if kind != "EOF" {
+									src.EndErr = env.ErrInjected
+								}
+								src.WithLast = kind == "error-with-last-bytes"
+								e := &wsflate.Extension{Parameters: wsflate.DefaultParameters}
+								u := ws.Upgrader{ReadBufferSize: bufSize, Protocol: func(b []byte) bool { return true }, Negotiate: e.Negotiate}
+								out, _, err := hs.RunUpgrader(u, src)
+								if err == nil {
+									return explore.Failf("upgrade-succeeds-on-cut-request", "wrote %q", out)
+								}
+								if bytes.Contains(out, []byte(" 101 ")) {
+									return explore.Failf("101-written-for-cut-request", "%q", out)
+								}
+								t.Outcome("request:" + kind)
+								return nil
+							})
+						}
+					}
+				}
+			}
+			theURL, _ := url.ParseRequestURI("ws://example.com/")
+			for _, rs := range []hs.Resp{
+				make(hs.Resp, len(hs.RespFields)),
+				hs.Resp(withField(hs.RespFields, "protocol", "a")),
+				hs.Resp(withField(hs.RespFields, "extensions", "x;p=1")),
+				hs.Resp(withField(hs.RespFields, "lineend", "LF")),
+				hs.Resp(withField(hs.RespFields, "extra", "after")),
+			} {
+				c := hs.DialCfg{1, 1, 0, 0, 0}
+				_, probe := rs.Build(hs.CanonKey, c.ReadBuf())
+				for cut := 0; cut < len(probe); cut++ {
+					for _, kind := range []string{"EOF", "error", "error-with-last-bytes"} {
+						for _, rb := range []int{0, 1} {
+							rs, cut, kind, rb := rs, cut, kind, rb
+							t.Do(func() string { return fmt.Sprintf("Dialer response{%s} cut=%d/%d end=%s readbuf#%d", rs, cut, len(probe), kind, rb) }, func() *explore.Fail {
+								cc := hs.DialCfg{1, 1, rb, 0, 0}
+								d := cc.Dialer()
+								conn := &hs.LazyConn{}
+								conn.Respond = func(req []byte) []byte {
+									_, data := rs.Build(hs.KeyOf(req), cc.ReadBuf())
+									return data
+								}
+								// cut the response stream
+								conn.Policy = nil
+								var src *env.Src
+								conn.OnRead = func(p []byte, off int) {}
+								br, _, err := dialCut(d, conn, theURL, cut, kind, &src)
+								if err == nil {
+									return explore.Failf("dial-succeeds-on-cut-response", "")
+								}
+								if br != nil {
+									return explore.Failf("reader-returned-for-cut-response", "")
+								}
+								t.Outcome("response:" + kind)
+								return nil
+							})
+						}
+					}
+				}
+			}
+			t.Note("5 request and 5 response shapes x every cut offset x {EOF, error, error with last bytes} x 2 read buffer sizes")
+		})
+
 		r.Part("E3-write-side-every-failing-call", func(t *explore.T) {
 			Dw := t.Pick(3, 4)
 			var cfgs []wops.Cfg
@@ -304,6 +391,45 @@ func main() {
 			t.Note(fmt.Sprintf("every writer history of <=%d ops (C06 alphabet) + Flush on 12 configurations x every index of the destination Write call that fails x {0,1} bytes accepted", Dw))
 		})
 	})
+}
+
+func withField(fields []hs.Field, name, variant string) hs.Req {
+	q := make(hs.Req, len(fields))
+	for i, f := range fields {
+		if f.Name == name {
+			for v, vn := range f.Variants {
+				if vn == variant {
+					q[i] = v
+					return q
+				}
+			}
+		}
+	}
+	panic("no such field/variant " + name + "/" + variant)
+}
+
+// cutConn wraps the lazy peer so that its answer ends at offset cut.
+type cutConn struct {
+	*hs.LazyConn
+	cut  int
+	kind string
+}
+
+func (c *cutConn) Read(p []byte) (int, error) {
+	if c.LazyConn.Src == nil {
+		n, err := c.LazyConn.Read(p[:0])
+		_, _ = n, err
+		c.LazyConn.Src.Cut = c.cut
+		if c.kind != "EOF" {
+			c.LazyConn.Src.EndErr = env.ErrInjected
+		}
+		c.LazyConn.Src.WithLast = c.kind == "error-with-last-bytes"
+	}
+	return c.LazyConn.Read(p)
+}
+
+func dialCut(d ws.Dialer, conn *hs.LazyConn, u *url.URL, cut int, kind string, _ **env.Src) (*bufio.Reader, ws.Handshake, error) {
+	return d.Upgrade(&cutConn{LazyConn: conn, cut: cut, kind: kind}, u)
 }
 
 // openAt reports whether a fragmented message is open at the cut.
